@@ -1007,7 +1007,7 @@ func (e *SpecEnv) evalGoCall(n *SCall) Value {
 				}
 			}
 			// the bound variable may have travelled through a `define` (whose environment has no binder of its own)
-			if qvarRe.MatchString(d) {
+			if qvarRe.MatchString(d) || valueMentionsQVar(a, 0) {
 				closed = false
 			}
 		}
@@ -1227,3 +1227,49 @@ func (e *SpecEnv) ghostLoc(d *Define, home *PkgInfo, args []Value) (string, stri
 }
 
 func u0(e *SpecEnv) *Unit { return e.u }
+
+// valueMentionsQVar: some term inside the value (struct reference, box, fields, slice header) mentions a bound variable.
+func valueMentionsQVar(v Value, depth int) bool {
+	if depth > 4 {
+		return true
+	}
+	switch x := v.(type) {
+	case Sc:
+		return qvarRe.MatchString(x.T.S)
+	case SliceV:
+		return qvarRe.MatchString(x.Arr.S) || qvarRe.MatchString(x.Off.S) || qvarRe.MatchString(x.Len.S)
+	case LocPtr:
+		return qvarRe.MatchString(x.Idx.S)
+	case TupleV:
+		for _, e := range x {
+			if valueMentionsQVar(e, depth+1) {
+				return true
+			}
+		}
+	case *StructV:
+		if x == nil {
+			return false
+		}
+		if x.Ref != nil && qvarRe.MatchString(x.Ref.S) {
+			return true
+		}
+		if x.Box != nil && qvarRe.MatchString(x.Box.S) {
+			return true
+		}
+		if x.C != nil && qvarRe.MatchString(x.C.S) {
+			return true
+		}
+		for _, f := range x.Fields {
+			if valueMentionsQVar(f, depth+1) {
+				return true
+			}
+		}
+		if x.A != nil && valueMentionsQVar(x.A, depth+1) {
+			return true
+		}
+		if x.B != nil && valueMentionsQVar(x.B, depth+1) {
+			return true
+		}
+	}
+	return false
+}
